@@ -923,6 +923,10 @@ func FromV3SchemaRef(schema *openapi3.SchemaRef, components *openapi3.Components
 		AdditionalProperties: schema.Value.AdditionalProperties,
 	}
 
+	if v := schema.Value.Discriminator; v != nil {
+		v2Schema.Discriminator = v.PropertyName
+	}
+
 	if v := schema.Value.Items; v != nil {
 		v2Schema.Items, _ = FromV3SchemaRef(v, components)
 	}
